@@ -14,7 +14,7 @@ import itertools, os
 from ..ref import cell as RC
 from ..ref import tlb as RTLB
 from ..ref import hashmap as RH
-from .common import to_lib as cell_to_lib, from_lib, exc_name
+from .common import to_lib as cell_to_lib, from_lib, exc_name, lib_canon
 
 ID = 'C17'
 TITLE = 'TVM stack values round-trip and serialising does not consume them'
@@ -739,6 +739,13 @@ def h_enabled(pool):
             for j in (1, 3, 0):
                 if j < n and j in vals and (j < i or not isinstance(pool[j], VmTuple)):      # never build a cyclic value
                     ev.append(['t_append', i, j])
+    from pytoniq_core.boc import Builder, Slice
+    for i in vals:
+        if isinstance(pool[i], Builder) and len(pool[i].refs) < 4:
+            ev.append(['b_store_ref', i])           # the caller goes on using its own builder / slice after it was serialised
+            ev.append(['b_store_bits', i])
+        elif isinstance(pool[i], Slice) and pool[i].remaining_bits:
+            ev.append(['s_load_bit', i])
     for i in range(n):
         if isinstance(pool[i], tuple) and pool[i][0] == 'RES' and pool[i][1] == 'stack':
             ev.append(['deser', i])
@@ -770,6 +777,16 @@ def h_apply(pool, ev):
     if op == 't_edit':
         pool[ev[1]].list[0] = 424242
         return 'ok'
+    if op == 'b_store_ref':
+        from pytoniq_core.boc import Builder
+        pool[ev[1]].store_ref(Builder().store_uint(0xC17, 12).end_cell())
+        return 'ok'
+    if op == 'b_store_bits':
+        pool[ev[1]].store_bits('101')
+        return 'ok'
+    if op == 's_load_bit':
+        pool[ev[1]].load_bit()
+        return 'ok'
     if op == 'deser':
         vals = VmStack.deserialize(pool[ev[1]][2].begin_parse())
         for v in vals[:3]:
@@ -782,13 +799,15 @@ def h_canon(pool):
     out = []
     for o in pool:
         if isinstance(o, tuple) and o[0] == 'RES':
-            out.append(('RES', o[1], o[2].hash.hex()))
+            # a produced cell is a value: its (cached) hash AND its actual content
+            out.append(('RES', o[1], o[2].hash.hex(), lib_canon(o[2]).hex()))
         else:
             out.append(lv_lib(o))
     return tuple(out)
 
 
 H_MEMO = {}
+CALLER_EDITS = ('t_append', 't_pop', 't_edit', 'b_store_ref', 'b_store_bits', 's_load_bit')
 
 
 def run_history(rec, hist, check=True):
@@ -803,12 +822,16 @@ def run_history(rec, hist, check=True):
         except RecursionError as e:
             return pool, ('raises:' + ev[0], f'step {step} {ev}: raised RecursionError')
         except Exception as e:
-            if ev[0] in ('t_append', 't_pop', 't_edit'):
+            if ev[0] in CALLER_EDITS:
                 raise
             return pool, ('raises:' + ev[0], f'step {step} {ev}: raised {exc_name(e)}: {e}')
         after = h_canon(pool)[:len(before)]
-        if ev[0] in ('t_append', 't_pop', 't_edit'):
-            # intended change: exactly tuple ev[1] (and every tuple containing that same object) grows
+        if ev[0] in CALLER_EDITS:
+            # intended change: exactly the object ev[1] (and every tuple containing that same object) changes; the cells
+            # produced earlier are values and stay what they were
+            for i, (a, b) in enumerate(zip(before, after)):
+                if a != b and a[0] == 'RES':
+                    return pool, ('result-changed:' + ev[0], f'step {step} {ev}: the cell produced earlier (#{i}, {a[1]}) changed when the caller went on using its own value')
             continue
         if after != before:
             i = next(i for i, (a, b) in enumerate(zip(before, after)) if a != b)
